@@ -483,3 +483,45 @@ def rule_dispatch_table_arity(ctx, rule, prefixes, label, minimum=2):
     rep.add(rule, '%s / dispatch tables and their call sites agree' % label, None, not bad,
             '%d tables, %d calls through them: every stored function accepts the arguments passed' % (
                 n_tables, n_sites) if not bad else '%d stored functions do not fit their table\'s call' % len(bad))
+
+
+# ------------------------------------------------------------------------------------------------ memoised factories
+CACHING_DECORATORS = ('lru_cache', 'cache', 'cached', 'memoize', 'memoized')
+
+
+def rule_no_memoised_factories(ctx, rule, prefixes, label):
+    """A function that builds and returns an object of a library class hands out a new object per call: publishers,
+    subscribers, adapters and handlers carry per-subscription state (the subscriber, the credit channel, counters).
+    Decorated with a memoising decorator, equal arguments get the same object back, and two interactions share - and
+    overwrite - that state.  Expected count on a healthy tree: zero; the registered variants keep the rule alive."""
+    rep = ctx.report
+    repo = ctx.repo
+    from ..astutil import returned_exprs
+    n = 0
+    bad = []
+    for fn in repo.all_functions():
+        if not any(fn.qualname.startswith(p) for p in prefixes):
+            continue
+        n += 1
+        decos = [ast.unparse(d) for d in fn.node.decorator_list]
+        memo = [d for d in decos if d.split('(')[0].split('.')[-1] in CACHING_DECORATORS]
+        if not memo:
+            continue
+        builds = []
+        for r in returned_exprs(fn.node):
+            for c in ast.walk(r):
+                if isinstance(c, ast.Call):
+                    t = repo.resolve_expr(fn.module, c.func, fn.cls)
+                    if isinstance(t, ClassInfo):
+                        builds.append(t.name)
+        if builds:
+            bad.append((fn, memo[0], builds[0]))
+    if n < 400:
+        raise AnalysisError('%s: only %d functions scanned in %s' % (rule, n, label))
+    for fn, d, cls in bad:
+        rep.bad(rule, '%s / memoised constructor of %s' % (fn.short, cls), fn,
+                '@%s makes %s return the same %s object for equal arguments: interactions that overlap in time share '
+                'its per-subscription state' % (d, fn.short, cls))
+    rep.add(rule, '%s / factories hand out a new object per call' % label, None, not bad,
+            '%d functions scanned: none that builds a library object is memoised' % n if not bad else
+            '%d memoised factories' % len(bad))
